@@ -54,7 +54,7 @@ CLAIMED = {
     ),
     "C16": (
         "bound extraction from the follower's idiom (recursion with growing chain / for-range) + guard dominance + edge reachability (errors raise) + scheme-filter dominance",
-        "Static necessary conditions G1-G5: the number of fetches the redirect follower allows, extracted from its length guard and per-hop append, equals max_redirects + 1 and the guard dominates the fetch; the next hop is unreachable without the success edge of startswith('gemini://') on the followed value; loop and limit tests reach only raise; the loop test precedes the fetch and the fetched URL is what is recorded; get() without redirect following returns one unmodified _get_single result; hops go through the verifying fetch. Arbitrary server graphs beyond the bound are not decided.",
+        "Static necessary conditions G1-G5: the number of fetches the redirect follower allows, extracted from its length guard and per-hop append, equals max_redirects + 1 and the guard dominates the fetch; the next hop is unreachable without the success edge of startswith('gemini://') on the followed value; loop and limit tests reach only raise; the loop test precedes the fetch and the fetched URL is what is recorded; get() without redirect following returns one unmodified _get_single result; hops go through the verifying fetch; (G14) every store to self.max_redirects assigns the constructor's max_redirects parameter unaltered. Arbitrary server graphs beyond the bound are not decided.",
         "Trusted: CPython ast, engine. A follower in an unrecognised idiom is reported as 'bound not extractable'.",
         "DESIGN.md section 2, C16",
     ),
@@ -78,7 +78,7 @@ CLAIMED = {
     ),
     "C05": (
         "abstract evaluation of the rule's decision table over all atom combinations + None/empty fidelity by abstract evaluation + key def-use fidelity + loop/return analysis + path-canonicalisation domain compared between matcher and server",
-        "Static necessary conditions A1-A7: CertificateAuth.process_request evaluated abstractly over require_cert x certificate x allow-list (absent/empty/containing/other) equals the specification (60/61/admit, empty list admits nobody); the TOML allow-list keeps None vs [] on its way to the rule; each rule field comes from the like-named key and the config reaches CertificateAuth through serve()/start_server; the matcher returns the first prefix hit in list order; the value compared with rule prefixes is percent-decoded as often as the served path, with dot segments, repeated and leading slashes collapsed and a slash-less directory matched as the directory; PyOpenSSL (client certificates requested) is selected whenever a rule needs a certificate.",
+        "Static necessary conditions A1-A7: CertificateAuth.process_request evaluated abstractly over require_cert x certificate x allow-list (absent/empty/containing/other) equals the specification (60/61/admit, empty list admits nobody); the TOML allow-list keeps None vs [] on its way to the rule; each rule field comes from the like-named key and the config reaches CertificateAuth through serve()/start_server; the matcher returns the first prefix hit in list order; the value compared with rule prefixes is percent-decoded as often as the served path, with dot segments, repeated and leading slashes collapsed and a slash-less directory matched as the directory; PyOpenSSL (client certificates requested) is selected whenever a rule needs a certificate; (A13) the rule list handed to CertificateAuthConfig holds one rule per configured entry in the configured order.",
         "Trusted: CPython ast, engine, pathlib/posixpath/urllib semantics; a canonicalisation idiom outside the catalogue would be reported (residual risk). TLS delivery of the certificate not decided.",
         "DESIGN.md section 2, C05",
     ),
